@@ -48,6 +48,10 @@ def rand_ev(rng, grid=8, base=T0):
 EPOCH_BASE = -4 * SEC
 # ... and histories dated after today (2149: the library only warns about years after 2100)
 FUTURE_BASE = 5_680_000_000_000_000
+# ... and far from the epoch on either side (1 March of the years 500, 1000, 2300, 3000, 9000): a double no longer
+# resolves such instants to the microsecond
+FAR_BASES = [-46_383_580_800_000_000, -30_605_126_400_000_000, 10_418_889_600_000_000, 32_508_777_600_000_000,
+             221_850_489_600_000_000]
 
 
 class HistGen:
@@ -58,7 +62,7 @@ class HistGen:
         self.buckets = (BUCKETS_LIKE if rng.random() < 0.15 else BUCKETS)[:nbuckets]
         self.grid = grid
         r0 = rng.random()
-        self.base = EPOCH_BASE if r0 < 0.12 else FUTURE_BASE if r0 < 0.18 else T0
+        self.base = EPOCH_BASE if r0 < 0.12 else FUTURE_BASE if r0 < 0.18 else rng.choice(FAR_BASES) if r0 < 0.24 else T0
         self.ops = []
         self.nrefs = 0
         self.live = {b: [] for b in self.buckets}
